@@ -34,6 +34,26 @@ def retryable_error(kind, tag):
     return e
 
 
+_SHAPES = {}
+_PY2OP = {'head_object': 'HeadObject', 'get_object': 'GetObject', 'put_object': 'PutObject',
+          'create_multipart_upload': 'CreateMultipartUpload', 'upload_part': 'UploadPart',
+          'upload_part_copy': 'UploadPartCopy', 'complete_multipart_upload': 'CompleteMultipartUpload',
+          'abort_multipart_upload': 'AbortMultipartUpload', 'copy_object': 'CopyObject', 'delete_object': 'DeleteObject'}
+
+
+def unknown_params(op, kwargs):
+    """kwargs names that the installed botocore S3 model does not have for this operation"""
+    if not _SHAPES:
+        import botocore.session
+        model = botocore.session.get_session().get_service_model('s3')
+        for py, name in _PY2OP.items():
+            _SHAPES[py] = set(model.operation_model(name).input_shape.members)
+    members = _SHAPES.get(op)
+    if members is None:
+        return []
+    return [k for k in kwargs if k not in members]
+
+
 class FaultPlan:
     """faults: list of dicts {op, nth (0-based among calls of that op), when, exc (callable)}"""
 
@@ -156,6 +176,13 @@ class FakeS3:
         self.on_event = None     # optional observer(entry)
 
     # -- plumbing -------------------------------------------------------
+    def __getattribute__(self, name):
+        if name in _PY2OP:
+            h = object.__getattribute__(self, '_hook')
+            if h is not None:
+                h('client-attr', name)
+        return object.__getattribute__(self, name)
+
     def hook(self, what, info=None):
         if self._hook is not None:
             self._hook(what, info)
@@ -177,6 +204,13 @@ class FakeS3:
         summary = summary if summary is not None else self._summ(kwargs)
         self.hook('req-begin', (op, seq))
         self._ev(op, 'begin', summary, seq=seq)
+        unknown = unknown_params(op, kwargs)
+        if unknown:
+            # what a botocore client does before it builds a request: parameters the operation does not
+            # have are a ParamValidationError, and nothing is sent
+            from botocore.exceptions import ParamValidationError
+            self._ev(op, 'end', summary, outcome='raise:ParamValidationError', seq=seq)
+            raise ParamValidationError(report='Unknown parameter in input: "%s"' % unknown[0])
         with self._mu:
             self.inflight[group] = self.inflight.get(group, 0) + 1
             self.max_inflight[group] = max(self.max_inflight.get(group, 0), self.inflight[group])
